@@ -20,14 +20,14 @@ from props import c02 as g
 from props.c02 import N, R, U, B, P, mkU, mkB, wire, parse_wire, cps, uncps, level, OPPREC, OPSYM, OPNAMES
 
 LEVEL_TEXT = (
-    'Lean theorems (kernel-checked; axioms propext, Classical.choice, Quot.sound): Props.C01.C01_partial - for '
+    'Lean theorems (kernel-checked; axioms propext, Classical.choice, Quot.sound): Props.C01.C01 - for '
     'EVERY well-formed operator expression e (numeric literals incl. percent and scientific form, cell references, '
     'written parentheses, unary minus, the twelve binary operators; the grammar Spec.C02.WF carries the precedence '
     'levels u- 7 > % > ^ 5 > * / 4 > + - 3 > & 2 > comparisons 1 and left associativity), EVERY placement of '
     'blanks/newlines b and every assignment of numbers to the cells, evaluateFormula (render b e) = denote e env '
     'for the statement-by-statement model of tokenizer.py, parser.py, OperatorNode/OperandNode/RangeNode.eval and '
     'the operator functions - unbounded, by composing Props.C02.parse_render (text -> tree, character level) with '
-    'eval_denote_partial (tree -> value, induction on e) and the table obligation op_func_table over the '
+    'eval_denote (tree -> value, induction on e; int_of_text: the model\'s int(text) reads every -?digits+ text as the reference reading does, so texts produced by & may flow into arithmetic) and the table obligation op_func_table over the '
     'regenerated INFIX/PREFIX_OP_TO_FUNC maps; C01_div0; C01_parens_blanks_irrelevant (any two renderings that '
     'differ in redundant parentheses and blanks evaluate alike, errors included); the precedence/associativity '
     'statement itself: flat_text, wf_left_iff, wf_right_iff, flat_unique, left_assoc, neg_binds_tightest, '
@@ -36,12 +36,11 @@ LEVEL_TEXT = (
     'through compiled models (every ordered operator pair and triple exhaustively, comparison ties, #DIV/0! '
     'propagation, deeper trees sampled).')
 LEVEL_NOTE = (
-    'PARTIAL in one respect: C01_partial carries the guard NoTextArith (no arithmetic operator or unary minus '
-    'reads a TEXT operand, i.e. (1&2)+3 is outside the theorem; texts flowing into & and into comparisons are '
-    'inside). Missing for the full statement: that the model\'s int(text) reads the decimal text of an integer '
-    'back (a fact about Nat.repr); that region is covered by the correspondence run only. denote is undef - and '
-    'nothing is claimed - where the statement is silent (text form of non-integers and booleans under &, '
-    'non-integral exponents, 0^0, non-numeric texts in arithmetic). Trusted: Lean kernel, the hand-written '
+    'Full strength: no guard beyond the statement\'s own domain (the former NoTextArith guard is gone: (1&2)+3 = 15 '
+    'is inside the theorem). Hypotheses: cells hold numbers, integral ones as Python ints (EnvOK); literals are '
+    'finite doubles (LitsFinite). denote is undef - and nothing is claimed - where the statement is silent (text '
+    'form of non-integers and booleans under &, non-integral exponents, 0^0, texts that are not -?digits+ in '
+    'arithmetic: Excel and dateutil read 1-2 as a date). Trusted: Lean kernel, the hand-written '
     'tokenizer/parser/value-layer/evaluation models (validated by correspondence: 0 value or tree disagreements '
     'on ~5e5 formulas; not proved equal to the Python), the Spec semantics denote as a rendering of Excel\'s '
     'grammar, IEEE double arithmetic (ideal rationals in Lean; floats compared within 1e-9, rounding-sensitive '
@@ -75,6 +74,10 @@ ASSUMPTIONS = [
     'finding D3, outside the generated grammar); scientific literals in Excel\'s normalised form d[.ddd]E+dd; '
     'no unary plus, no strings, booleans, error literals or function calls in the formulas',
     'blanks and newlines only where the statement allows them (around operators, parentheses, leading/trailing)',
+    'generator caps (not exclusions of the comparison): exponents above 400 and values beyond 1e300 are not '
+    'generated - doubles overflow there, and the COMPILED Lean driver panics ("Nat.pow exponent is too big") '
+    'when Model/Value.lean\'s float(text) evaluates 10^e for |e| >= 2^24 (e.g. the literal 1E+99999999999); the '
+    'theorems are unaffected (they are about the definitions, not the compiled code)',
     'observable 2 (the parse tree) and every model/code comparison are model validation only: a disagreement '
     'there is reported as model drift, never as a violation of C01',
 ]
